@@ -141,6 +141,9 @@ def make_source(rng, faces, node_truth, tag, combo, node_ll=None):
     nprov, eprov, fprov, (rn, re_, rf), (cn, ce, cf) = combo
     s = Source(faces, node_truth, tag)
     n_ll = node_ll if node_ll is not None else ll_of(s.truth["node"])
+    if np.any(np.abs(np.asarray(n_ll[1], float)) > 90.0):
+        # outside the property's domain (not a latitude): a generator defect, never a verdict
+        raise AssertionError(f"generator produced a latitude outside [-90, 90] for source {tag}")
     if nprov in ("ll", "both"):
         lon = conv360(n_ll[0]) if cn else np.asarray(n_ll[0], float).copy()
         s.ll["node"] = (lon, np.asarray(n_ll[1], float).copy())
@@ -714,6 +717,9 @@ def fine_patch(rng, d=None, where=None):
         lat0 = min(lat0, 85.0 - ny * ddeg)
     else:
         lat0 = rng.uniform(-maxlat, maxlat - ny * ddeg) if maxlat - ny * ddeg > -maxlat else -ny * ddeg / 2
+    # every latitude of the lattice must be a latitude: lat0 .. lat0 + ny*ddeg inside [-88, 88]
+    # (a southern high-latitude patch of coarse spacing used to start below -90: generator defect, DESIGN §13)
+    lat0 = min(max(lat0, -88.0), 88.0 - ny * ddeg)
     dlon = ddeg / max(math.cos(math.radians(abs(lat0) + ny * ddeg)), 0.05)
     dlon = min(dlon, 100.0 / nx)
     if where == "antimeridian":
